@@ -946,6 +946,9 @@ extern void dumpnfa(int);
 /* Finish up the processing for a rule. */
 extern void finish_rule(int, bool, int, int, int);
 
+/* Finish the prologue of the current rule's action. */
+extern void begin_rule_action(void);
+
 /* Connect two machines together. */
 extern int link_machines(int, int);
 
